@@ -20,8 +20,11 @@ import (
 	"golang.org/x/crypto/openpgp"           //nolint
 	"golang.org/x/crypto/openpgp/clearsign" //nolint
 
+	"helm.sh/helm/v4/pkg/action"
 	"helm.sh/helm/v4/pkg/chart/v2/loader"
+	"helm.sh/helm/v4/pkg/cli"
 	"helm.sh/helm/v4/pkg/downloader"
+	"helm.sh/helm/v4/pkg/getter"
 	"helm.sh/helm/v4/pkg/provenance"
 	"helm.sh/helm/v4/pkg/repo"
 )
@@ -40,6 +43,7 @@ type C17Spec struct {
 	Multi      string `json:"multi,omitempty"`      // "" | "listed": the provenance lists a second archive too; "swapped": … and that archive's bytes are served under the first one's name
 	ReadError  bool   `json:"readError,omitempty"`  // after an accepted download the archive is verified again while reading it fails with an I/O error
 	Rekey      string `json:"rekey,omitempty"`      // the keyring FILE is rewritten with this content after the first download; the chart is then downloaded again
+	Via        string `json:"via,omitempty"`        // "" = ChartDownloader.DownloadTo; "locate" = ChartPathOptions.LocateChart with Verify (what install --verify runs), both attempts sharing the repository cache
 }
 
 type pgpKeys struct {
@@ -214,6 +218,7 @@ func ExecuteC17(t *testing.T, plan *Plan) *RunResult {
 	panicked := ""
 	var opErr2 error
 	var destfile2, panicked2 string
+	var got1, got2 []byte
 	secondRan := false
 	synctest.Test(t, func(t *testing.T) {
 		n := NewNetSim()
@@ -245,13 +250,36 @@ func ExecuteC17(t *testing.T, plan *Plan) *RunResult {
 		}
 		dest := filepath.Join(dir, "dest")
 		os.MkdirAll(dest, 0o755)
+		download := func(dest string) (string, *provenance.Verification, error) {
+			return dl.DownloadTo("repo0/mychart0", "1.0.0", dest)
+		}
+		if c.Via == "locate" {
+			// the route install/upgrade/template --verify take: the archive lands in the repository cache, which a retry shares
+			getter.VerifSetDefaultTransport(n.Transport)
+			defer getter.VerifSetDefaultTransport(nil)
+			settings := cli.New()
+			settings.RepositoryConfig = cfg
+			settings.RepositoryCache = cache
+			settings.PluginsDirectory = filepath.Join(dir, "no-plugins")
+			download = func(string) (string, *provenance.Verification, error) {
+				cpo := action.ChartPathOptions{Version: "1.0.0", Verify: true, Keyring: keyring}
+				wd, _ := os.Getwd()
+				os.Chdir(dir)
+				defer os.Chdir(wd)
+				f, err := cpo.LocateChart("repo0/mychart0", settings)
+				return f, nil, err
+			}
+		}
 		func() {
 			defer func() {
 				if r := recover(); r != nil {
 					panicked = fmt.Sprint(r)
 				}
 			}()
-			destfile, ver, opErr = dl.DownloadTo("repo0/mychart0", "1.0.0", dest)
+			destfile, ver, opErr = download(dest)
+			if opErr == nil {
+				got1, _ = os.ReadFile(destfile)
+			}
 		}()
 		if c.Rekey != "" && panicked == "" {
 			// trust changes between two operations of one process: same keyring path, other content
@@ -264,7 +292,10 @@ func ExecuteC17(t *testing.T, plan *Plan) *RunResult {
 						panicked2 = fmt.Sprint(r)
 					}
 				}()
-				destfile2, _, opErr2 = dl.DownloadTo("repo0/mychart0", "1.0.0", dest2)
+				destfile2, _, opErr2 = download(dest2)
+				if opErr2 == nil {
+					got2, _ = os.ReadFile(destfile2)
+				}
 			}()
 			secondRan = true
 		}
@@ -273,6 +304,13 @@ func ExecuteC17(t *testing.T, plan *Plan) *RunResult {
 		res.Violations = append(res.Violations, Violation{"C17", clause, "download-verify", cause, detail, 0})
 	}
 	cause := fmt.Sprintf("keyring=%s,target=%s:%s,rename=%v%s,swap=%v,signedBy=%s", c.Keyring, c.Target, c.Corrupt, c.Rename, c.RenameTo, c.SwapProv, who)
+	if c.Via != "" {
+		cause += ",via=" + c.Via
+		res.Probes["via-"+c.Via]++
+		if opErr == nil && panicked == "" {
+			res.Probes["via-"+c.Via+"-accepted"]++
+		}
+	}
 	if c.Multi != "" {
 		cause += ",multi=" + c.Multi
 	}
@@ -287,7 +325,7 @@ func ExecuteC17(t *testing.T, plan *Plan) *RunResult {
 	}
 	if c.Strategy != "ifpossible" {
 		if accepted {
-			got, _ := os.ReadFile(destfile)
+			got := got1
 			switch {
 			case !bytes.Equal(got, archive):
 				violate("accept-only-untampered", cause, "download was accepted although the archive bytes differ from the signed original")
@@ -297,6 +335,8 @@ func ExecuteC17(t *testing.T, plan *Plan) *RunResult {
 				violate("accept-only-matching-name", cause, "download was accepted although the archive was served under a file name the provenance does not list")
 			case c.SwapProv:
 				violate("accept-only-own-provenance", cause, "download was accepted with the provenance file of another chart")
+			case c.Via == "locate":
+				// (LocateChart returns a path only)
 			case ver == nil || ver.FileHash != wantHash:
 				h := "<nil>"
 				if ver != nil {
@@ -368,8 +408,17 @@ func ExecuteC17(t *testing.T, plan *Plan) *RunResult {
 			violate("accept-only-trusted-key", cause2, "after the keyring file was rewritten without the signer's key, a second download of the chart was still accepted")
 		}
 		if accepted2 && trusted2 {
-			if got, _ := os.ReadFile(destfile2); !bytes.Equal(got, archive) {
+			if !bytes.Equal(got2, archive) {
 				violate("accept-only-untampered", cause2, "second download was accepted although the archive bytes differ from the signed original")
+			}
+		}
+		if accepted2 && trusted2 {
+			// a retry is judged like a first attempt: what was served has not changed
+			switch {
+			case c.Rename:
+				violate("accept-only-matching-name", cause2, "second download was accepted although the archive was served under a file name the provenance does not list")
+			case c.SwapProv:
+				violate("accept-only-own-provenance", cause2, "second download was accepted with the provenance file of another chart")
 			}
 		}
 		if !accepted2 && trusted2 && intact {
@@ -425,6 +474,12 @@ func genC17(seed, index uint64, tier string) *Plan {
 		c.Rekey = g.Pick("signer", "other", "empty", "signer+other")
 	} else if g.Chance(0.15) {
 		c.ReadError = true
+	}
+	if c.Strategy == "always" && !c.ReadError && g.Chance(0.3) {
+		c.Via = "locate"
+	}
+	if c.Rekey == "" && !c.ReadError && (c.Via == "locate" && g.Chance(0.6) || g.Chance(0.1)) {
+		c.Rekey = c.Keyring // a plain retry, trust unchanged: the verdict must not depend on what the first attempt left behind
 	}
 	if c.Multi == "two-blocks" {
 		c.Rekey = "" // (granting trust to the first block's key afterwards would make the file genuine)
